@@ -314,7 +314,7 @@ ExternalRemove(n) == /\ phase # "gate" /\ n \in DOMAIN files
 
 \* somebody else cuts a file down to its first k bytes; the loggers append, so their next line follows byte k
 ExternalTruncate(n, k) == /\ phase # "gate" /\ n \in DOMAIN files /\ k \in 0..(Len(files[n]) - 1)
-                          /\ files' = [files EXCEPT ![n] = Low(@, k)]
+                          /\ files' = [files EXCEPT ![n] = High(@, k)]
                           /\ vanished' = vanished \cup GoneOf({n})
                           /\ wrote' = Without(wrote, {n})
                           /\ faulted' = (faulted \/ WroteOf(n) # <<>>)
